@@ -38,11 +38,21 @@ def main(argv) -> int:
         from .worker import make_scenario
 
         h = sc["history"]
-        i = int(h["stripe"])
-        while i <= int(h["upto"]):
-            run_scenario(mod, make_scenario(mod, prop, int(h["seed"]), i, h["tier"]))
-            i += int(h["nstripes"])
+        idx = [int(x) for x in h["only"]] if h.get("only") else list(range(int(h["stripe"]), int(h["upto"]) + 1, int(h["nstripes"])))
+        out = None
+        scs = sc.get("scenarios") or [make_scenario(mod, prop, int(h["seed"]), i, h["tier"]) for i in idx]
+        if h.get("only") and "scenarios" not in sc:
+            # a reduced history carries its scenarios (the file then no longer depends on the generators)
+            with open(path, "w") as fp:
+                json.dump({**sc, "expect": expect, "scenarios": scs}, fp, indent=1, sort_keys=True)
+        for one in scs:
+            out = run_scenario(mod, json.loads(json.dumps(one)))
         cleanup_scratch()
+        print(f"VERIF_SEED={h['seed']} history={idx[:3]}..{idx[-1]} ({len(idx)} scenarios) replay={path}")
+        if out is not None and out.violation is not None and expect.get("class") in (None, out.violation):
+            print(f"VIOLATION property={prop} replay={path}")
+            print(f"  class={out.violation}\n  detail={out.detail}\n  (last scenario of the history, run {idx[-1]})")
+            return 1
         print(f"REPLAY-CLEAN property={prop} (expected {expect.get('class')})")
         return 0
     out = run_scenario(mod, sc)
